@@ -111,7 +111,7 @@ pub enum OracleD {
     Fixed,
     Staked { oracle: Pubkey, lst_mint: Pubkey, sol_pool: Pubkey },
     /// Kamino pass-through bank: Pyth price account + venue reserve (exchange rate)
-    Kamino { oracle: Pubkey, reserve: Pubkey },
+    Venue { oracle: Pubkey, reserve: Pubkey },
 }
 impl OracleD {
     /// accounts that follow the bank in the risk-engine remaining accounts
@@ -120,7 +120,7 @@ impl OracleD {
             OracleD::None | OracleD::Fixed => vec![],
             OracleD::Pyth(k) | OracleD::Swb(k) => vec![*k],
             OracleD::Staked { oracle, lst_mint, sol_pool } => vec![*oracle, *lst_mint, *sol_pool],
-            OracleD::Kamino { oracle, reserve } => vec![*oracle, *reserve],
+            OracleD::Venue { oracle, reserve } => vec![*oracle, *reserve],
         }
     }
 }
@@ -133,7 +133,7 @@ pub struct BankD {
     pub oracle: OracleD,
     pub k: BankKeys,
     /// venue-side accounts of a Kamino pass-through bank
-    pub kamino: Option<ix::KaminoKeys>,
+    pub venue: Option<ix::VenueKeys>,
 }
 pub struct UserD {
     pub kp: Keypair,
@@ -311,15 +311,85 @@ impl World {
             self.refresh_reserves();
         }
     }
-    /// What a `refresh_reserve` of the venue does: stamp every Kamino reserve with the current slot.
+    /// What a `refresh_reserve` of the venue does: stamp every venue reserve with the current slot.
     pub fn refresh_reserves(&mut self) {
         let slot = self.chain.clock.slot;
-        let ks: Vec<Pubkey> = self.banks.iter().filter_map(|b| b.kamino.map(|k| k.reserve)).collect();
-        for k in ks {
-            self.edit_reserve(&k, |r| {
-                r.slot = slot;
-                r.stale = 0;
-            });
+        let ks: Vec<(Pubkey, ix::VenueKind)> = self.banks.iter().filter_map(|b| b.venue.map(|k| (k.reserve, k.kind))).collect();
+        for (k, kind) in ks {
+            match kind {
+                ix::VenueKind::Kamino => self.edit_reserve(&k, |r| {
+                    r.slot = slot;
+                    r.stale = 0;
+                }),
+                ix::VenueKind::Solend => self.edit_solend_reserve(&k, |r| {
+                    r.last_update_slot = slot;
+                    r.last_update_stale = 0;
+                }),
+            }
+        }
+    }
+    pub fn solend_reserve(&self, k: &Pubkey) -> Option<solend_mocks::state::SolendMinimalReserve> {
+        self.shadow.get(k).and_then(|a| crate::venue::read_solend_reserve(&a.data))
+    }
+    pub fn edit_solend_reserve<F: FnOnce(&mut solend_mocks::state::SolendMinimalReserve)>(&mut self, k: &Pubkey, f: F) {
+        if let Some(mut r) = self.solend_reserve(k) {
+            f(&mut r);
+            let lamports = self.shadow.get(k).map(|a| a.lamports).unwrap_or(100_000_000);
+            self.plant(k, Account { lamports, data: crate::venue::solend_reserve_bytes(&r), owner: crate::venue::SOLEND, executable: false, rent_epoch: 0 });
+        }
+    }
+    /// venue yield: the borrowed side of the reserve of bank `b` grows by `frac` of total liquidity
+    pub fn venue_yield(&mut self, b: usize, frac: f64, noise: u128, whole: bool) {
+        use num_traits::ToPrimitive;
+        let kk = match self.banks[b].venue {
+            Some(k) => k,
+            None => return,
+        };
+        match kk.kind {
+            ix::VenueKind::Kamino => self.edit_reserve(&kk.reserve, |r| {
+                let tl = crate::venue::kamino_total_liq_sf(r);
+                let x = (tl.to_f64().unwrap_or(0.0) * frac) as u128;
+                let add = if whole { (x >> 60) << 60 } else { x | (noise & 0xFFFF_FFFF) };
+                let cur = u128::from_le_bytes(r.borrowed_amount_sf);
+                r.borrowed_amount_sf = cur.saturating_add(add).min(u128::MAX >> 8).to_le_bytes();
+            }),
+            ix::VenueKind::Solend => self.edit_solend_reserve(&kk.reserve, |r| {
+                let wad: u128 = 1_000_000_000_000_000_000;
+                let tl = crate::venue::solend_total_liq_wads(r);
+                let x = (tl.to_f64().unwrap_or(0.0) * frac) as u128;
+                let add = if whole { (x / wad) * wad } else { x | (noise & 0xFFFF_FFFF) };
+                let cur = u128::from_le_bytes(r.liquidity_borrowed_amount_wads);
+                r.liquidity_borrowed_amount_wads = cur.saturating_add(add).min(u128::MAX >> 8).to_le_bytes();
+            }),
+        }
+    }
+    /// whole native units currently lent out by the venue reserve of bank `b`
+    pub fn venue_borrowed_whole(&self, b: usize) -> u64 {
+        match self.banks[b].venue {
+            Some(kk) if kk.kind == ix::VenueKind::Kamino => self.reserve(&kk.reserve).map(|r| (u128::from_le_bytes(r.borrowed_amount_sf) >> 60) as u64).unwrap_or(0),
+            Some(kk) => self.solend_reserve(&kk.reserve).map(|r| (u128::from_le_bytes(r.liquidity_borrowed_amount_wads) / 1_000_000_000_000_000_000) as u64).unwrap_or(0),
+            None => 0,
+        }
+    }
+    /// borrowers repay the venue `x` native units: real tokens arrive in the supply vault
+    pub async fn venue_repaid(&mut self, b: usize, x: u64) {
+        let kk = match self.banks[b].venue {
+            Some(k) => k,
+            None => return,
+        };
+        let mi = self.banks[b].mint;
+        self.mint_to(mi, kk.supply, x).await;
+        match kk.kind {
+            ix::VenueKind::Kamino => self.edit_reserve(&kk.reserve, |r| {
+                r.available_amount = r.available_amount.saturating_add(x);
+                let cur = u128::from_le_bytes(r.borrowed_amount_sf);
+                r.borrowed_amount_sf = cur.saturating_sub((x as u128) << 60).to_le_bytes();
+            }),
+            ix::VenueKind::Solend => self.edit_solend_reserve(&kk.reserve, |r| {
+                r.liquidity_available_amount = { r.liquidity_available_amount }.saturating_add(x);
+                let cur = u128::from_le_bytes(r.liquidity_borrowed_amount_wads);
+                r.liquidity_borrowed_amount_wads = cur.saturating_sub((x as u128) * 1_000_000_000_000_000_000).to_le_bytes();
+            }),
         }
     }
     pub fn reserve(&self, k: &Pubkey) -> Option<kamino_mocks::state::MinimalReserve> {
@@ -512,7 +582,7 @@ impl World {
         }
         let k = BankKeys::of(b);
         self.refresh(&[b, k.lv, k.iv, k.fv, gk]).await;
-        self.banks.push(BankD { key: b, group, mint, oracle, k, kamino: None });
+        self.banks.push(BankD { key: b, group, mint, oracle, k, venue: None });
         Ok(self.banks.len() - 1)
     }
 
@@ -548,7 +618,7 @@ impl World {
         }
         let k = BankKeys::of(b);
         self.refresh(&[b, k.lv, k.iv, k.fv, gk]).await;
-        self.banks.push(BankD { key: b, group, mint: mint_idx, oracle: OracleD::Staked { oracle: sol_oracle, lst_mint, sol_pool }, k, kamino: None });
+        self.banks.push(BankD { key: b, group, mint: mint_idx, oracle: OracleD::Staked { oracle: sol_oracle, lst_mint, sol_pool }, k, venue: None });
         Ok(self.banks.len() - 1)
     }
 
@@ -571,7 +641,7 @@ impl World {
         let bank = ix::bank_pda(&gk, &mk, seed);
         let k = BankKeys::of(bank);
         let obligation = crate::venue::kamino_obligation_key(&k.lva, &market);
-        let kk = ix::KaminoKeys { market, lma, reserve, obligation, supply, col_mint: self.next_kp().pubkey(), col_supply: self.next_kp().pubkey() };
+        let kk = ix::VenueKeys { kind: ix::VenueKind::Kamino, market, lma, reserve, obligation, supply, col_mint: self.next_kp().pubkey(), col_supply: self.next_kp().pubkey(), user_collateral: Pubkey::default() };
         let mut r: MinimalReserve = bytemuck::Zeroable::zeroed();
         r.version = 1;
         r.slot = self.chain.clock.slot;
@@ -604,35 +674,88 @@ impl World {
         o.deposits[0].deposit_reserve = reserve;
         self.plant(&obligation, Account { lamports: 100_000_000, data: crate::venue::obligation_bytes(&o), owner: crate::venue::KAMINO, executable: false, rent_epoch: 0 });
         self.refresh(&[b, k.lv, k.iv, k.fv, gk, supply]).await;
-        self.banks.push(BankD { key: b, group, mint, oracle: OracleD::Kamino { oracle, reserve }, k, kamino: Some(kk) });
+        self.banks.push(BankD { key: b, group, mint, oracle: OracleD::Venue { oracle, reserve }, k, venue: Some(kk) });
         Ok(self.banks.len() - 1)
     }
     /// deposit through whatever instruction the bank's kind requires
     pub fn ix_deposit_any(&self, a: usize, b: usize, signer: Pubkey, ta: Pubkey, amount: u64) -> Instruction {
-        if self.banks[b].kamino.is_some() {
-            self.ix_kamino_deposit(a, b, signer, ta, amount)
+        if self.banks[b].venue.is_some() {
+            self.ix_venue_deposit(a, b, signer, ta, amount)
         } else {
             self.ix_deposit(a, b, signer, ta, amount, None)
         }
     }
     pub fn ix_withdraw_any(&self, a: usize, b: usize, signer: Pubkey, ta: Pubkey, amount: u64, all: Option<bool>) -> Instruction {
-        if self.banks[b].kamino.is_some() {
-            self.ix_kamino_withdraw(a, b, signer, ta, amount, all)
+        if self.banks[b].venue.is_some() {
+            self.ix_venue_withdraw(a, b, signer, ta, amount, all)
         } else {
             self.ix_withdraw(a, b, signer, ta, amount, all)
         }
     }
-    pub fn ix_kamino_deposit(&self, a: usize, b: usize, signer: Pubkey, ta: Pubkey, amount: u64) -> Instruction {
+    pub fn ix_venue_deposit(&self, a: usize, b: usize, signer: Pubkey, ta: Pubkey, amount: u64) -> Instruction {
         let bd = &self.banks[b];
         let m = self.mint_of_bank(b);
-        ix::kamino_deposit(self.groups[bd.group].key, self.accts[a].key, signer, bd.key, ta, m.key, m.program(), bd.kamino.as_ref().expect("kamino bank"), amount)
+        let kk = bd.venue.as_ref().expect("venue bank");
+        match kk.kind {
+            ix::VenueKind::Kamino => ix::kamino_deposit(self.groups[bd.group].key, self.accts[a].key, signer, bd.key, ta, m.key, m.program(), kk, amount),
+            ix::VenueKind::Solend => ix::solend_deposit(self.groups[bd.group].key, self.accts[a].key, signer, bd.key, ta, m.key, m.program(), kk, amount),
+        }
     }
-    pub fn ix_kamino_withdraw(&self, a: usize, b: usize, signer: Pubkey, ta: Pubkey, amount: u64, all: Option<bool>) -> Instruction {
+    pub fn ix_venue_withdraw(&self, a: usize, b: usize, signer: Pubkey, ta: Pubkey, amount: u64, all: Option<bool>) -> Instruction {
         let bd = &self.banks[b];
         let m = self.mint_of_bank(b);
         let closing = all == Some(true);
         let rem = self.risk_metas(a, None, if closing { Some(b) } else { None });
-        ix::kamino_withdraw(self.groups[bd.group].key, self.accts[a].key, signer, bd.key, ta, m.key, m.program(), bd.kamino.as_ref().expect("kamino bank"), amount, all, rem)
+        let kk = bd.venue.as_ref().expect("venue bank");
+        match kk.kind {
+            ix::VenueKind::Kamino => ix::kamino_withdraw(self.groups[bd.group].key, self.accts[a].key, signer, bd.key, ta, m.key, m.program(), kk, amount, all, rem),
+            ix::VenueKind::Solend => ix::solend_withdraw(self.groups[bd.group].key, self.accts[a].key, signer, bd.key, ta, m.key, m.program(), kk, amount, all, rem),
+        }
+    }
+    /// Solend pass-through bank over a planted reserve / obligation served by `venue::solend_entry`.
+    #[allow(clippy::too_many_arguments)]
+    pub async fn add_bank_solend(&mut self, group: usize, mint: usize, cfg: marginfi::state::solend::SolendConfigCompact, px: PythPx, liq: u64, col: u64, seed: u64) -> Result<usize, TxOut> {
+        use solend_mocks::state::SolendMinimalReserve;
+        let oracle = self.next_kp().pubkey();
+        self.set_pyth(&oracle, px);
+        let market = self.next_kp().pubkey();
+        let reserve = self.next_kp().pubkey();
+        let (lma, _) = crate::venue::solend_market_authority(&market);
+        // the obligation starts with a small seed deposit (what init_obligation leaves behind)
+        let seed_col: u64 = 100;
+        let supply = self.new_token_account(mint, lma, liq).await;
+        let col_supply = self.new_token_account(mint, lma, 0).await;
+        let (mk, dec, prog) = (self.mints[mint].key, self.mints[mint].decimals, self.mints[mint].program());
+        let gk = self.groups[group].key;
+        let admin = clone_kp(&self.groups[group].admin);
+        let p = self.chain.payer.pubkey();
+        let mut r: SolendMinimalReserve = bytemuck::Zeroable::zeroed();
+        r.last_update_slot = self.chain.clock.slot;
+        r.lending_market = market;
+        r.liquidity_mint_pubkey = mk;
+        r.liquidity_mint_decimals = dec;
+        r.liquidity_supply_pubkey = supply;
+        r.liquidity_available_amount = liq;
+        r.collateral_mint_pubkey = self.next_kp().pubkey();
+        r.collateral_mint_total_supply = col.max(seed_col);
+        r.collateral_supply_pubkey = col_supply;
+        let col_mint = r.collateral_mint_pubkey;
+        self.plant(&reserve, Account { lamports: 100_000_000, data: crate::venue::solend_reserve_bytes(&r), owner: crate::venue::SOLEND, executable: false, rent_epoch: 0 });
+        let mut cfg = cfg;
+        cfg.oracle = oracle;
+        cfg.oracle_setup = OracleSetup::SolendPythPull;
+        let (ixn, b, obligation) = ix::add_bank_solend(gk, admin.pubkey(), p, mk, seed, reserve, prog, cfg, vec![ix::ro(oracle), ix::ro(reserve)]);
+        let out = self.raw_send(&[ixn], &[&admin]).await;
+        if !out.ok() {
+            return Err(out);
+        }
+        let k = BankKeys::of(b);
+        let kk = ix::VenueKeys { kind: ix::VenueKind::Solend, market, lma, reserve, obligation, supply, col_mint, col_supply, user_collateral: self.next_kp().pubkey() };
+        let od = crate::venue::solend_obligation_bytes(&market, &k.lva, &reserve, seed_col, self.chain.clock.slot);
+        self.plant(&obligation, Account { lamports: 100_000_000, data: od, owner: crate::venue::SOLEND, executable: false, rent_epoch: 0 });
+        self.refresh(&[b, k.lv, k.iv, k.fv, gk, supply]).await;
+        self.banks.push(BankD { key: b, group, mint, oracle: OracleD::Venue { oracle, reserve }, k, venue: Some(kk) });
+        Ok(self.banks.len() - 1)
     }
 
     // ------------------------------------------------------------ views
